@@ -141,6 +141,26 @@ def prefix_job(N, r, seed, kpre, S, want=WANT, real_queue=False):
                             % (N, r, seed, kpre, S + 1, ' (real DEPQ)' if real_queue else ''))
 
 
+def queue_witness(run):
+    """A bounded queue is a structural finding; it becomes a violation only with an end-to-end witness: a long native run, sized from the
+    bound, in which some trial subdivides an interval that does not have the maximal characteristic."""
+    for r_, c in list(run.candidates()):
+        if c['detail'].get('level') == 'queue-config':
+            ml = c['detail'].get('maxlen')
+            if isinstance(ml, int) and ml <= 6000:
+                a = {'level': 'longrun', 'want': ['C02'], 'N': 2, 'model': {}, 'r': 3.5, 'iters': int(3.6 * ml) + 50, 'seed': 1}
+                rp = run.write_replay('longrun', an.REPLAY_TEMPLATE % {'verif': report.VERIF, 'args': a})
+                ok, out = run.run_replay(rp, timeout=2400)
+                if ok:
+                    run.confirmed('%s:queue-bounded' % run.pid, 'the characteristics queue is bounded (maxlen=%s); in a run of %d trials: %s' % (ml, a['iters'], (out or '').strip()[-300:]), rp)
+                else:
+                    run.unconfirmed(c['label'], 'no violating trial in a native run of %d iterations: %s' % (a['iters'], (out or '')[-200:]))
+            else:
+                run.unconfirmed(c['label'], 'maxlen=%r: a native witness run would be too long' % (ml,))
+    for r_ in run.jobs:
+        r_['cex'] = [x for x in r_.get('cex', []) if x['detail'].get('level') != 'queue-config']
+
+
 def main():
     run = report.Runner(PID, design_ref='5/C02')
     agp.describe(run)
@@ -183,23 +203,7 @@ def main():
                     '(N enters the method only through the Hoelder length and the N-th power, covered by K1 for N <= 5 and by the step '
                     'checks for N <= 3); a bounded characteristics queue (Solver never sets maxlen)')
     res = run.parallel(jobs)
-    # a bounded queue is a structural finding; it becomes a violation only with an end-to-end witness: a long native run, sized from the
-    # bound, in which some trial subdivides an interval that does not have the maximal characteristic
-    for r_, c in list(run.candidates()):
-        if c['detail'].get('level') == 'queue-config':
-            ml = c['detail'].get('maxlen')
-            if isinstance(ml, int) and ml <= 1200:
-                a = {'level': 'longrun', 'want': ['C02'], 'N': 2, 'model': {}, 'r': 3.5, 'iters': int(3.6 * ml) + 50, 'seed': 1}
-                rp = run.write_replay('longrun', an.REPLAY_TEMPLATE % {'verif': report.VERIF, 'args': a})
-                ok, out = run.run_replay(rp, timeout=1500)
-                if ok:
-                    run.confirmed('C02:queue-bounded', 'the characteristics queue is bounded (maxlen=%s); in a run of %d trials: %s' % (ml, a['iters'], (out or '').strip()[-300:]), rp)
-                else:
-                    run.unconfirmed(c['label'], 'no violating trial in a native run of %d iterations: %s' % (a['iters'], (out or '')[-200:]))
-            else:
-                run.unconfirmed(c['label'], 'maxlen=%r: a native witness run would be too long' % (ml,))
-    for r_ in run.jobs:
-        r_['cex'] = [x for x in r_.get('cex', []) if x['detail'].get('level') != 'queue-config']
+    queue_witness(run)
     agp.confirm(run, WANT)
     run.finish('every trial subdivides an interval of maximal characteristic at the point given by the decision rule, strictly inside it; '
                'first trial at the image of 0.5; no coordinate twice',
